@@ -8,7 +8,7 @@ from kfv.rules import precond_rules as R
 from kfv.rules import tensor_rules as TR
 
 TECHNIQUE = ('abstract interpretation of the layer algebra over named index spaces, physical units, dtype tokens and qualifiers '
-             '(sym / orth / nonneg / damped), one run per configuration-flag valuation; symbolic hyper-parameter state at the call sites')
+             '(sym / orth / nonneg / damped), one run per configuration-flag valuation; symbolic hyper-parameter state at the call sites; cache-coherence rule (lazily cached state keyed by its arguments and cleared by every writer of its inputs)')
 EXPLANATION = (
     'compute_a_inv, compute_g_inv and preconditioned_grad of both layer classes are evaluated abstractly for every valuation of '
     '(eigen / eigen+pre-divided / inverse): tensors carry named index spaces (the eigen-index space of a factor differs from the '
@@ -17,7 +17,7 @@ EXPLANATION = (
     'with unit gradient/(lamG*lamA) and the gradient\'s own dtype; the damping parameter is added exactly at the specified site '
     '(eigen: to the (eG,eA) product of clamped spectra; inverse: damping*I to each factor before inv); both eigen paths agree; '
     'update_grad writes scale*grad back once and clears the slot; every second-order call receives the current damping property.  '
-    'Not decided: numerical accuracy / conditioning-scaled tolerance, torch\'s eigh/inv, dimensionally consistent scalar slips.')
+    'Not decided: numerical accuracy / conditioning-scaled tolerance, torch\'s eigh/inv, dimensionally consistent scalar slips. Lazily cached state (MEMO-KEY / MEMO-INVAL, incl. dirty-flag skips) must be keyed by per-call arguments such as damping and cleared wherever a field it derives from is assigned; the receive placeholder of the gradient broadcast must have the dtype and sizes of the source\'s slot.')
 
 NOT_DECIDED = 'numerical accuracy / conditioning-scaled tolerance; torch eigh/inv; dimensionally consistent scalar slips'
 
